@@ -103,8 +103,12 @@ def run(prop, tier, seed, select, level="model_checking"):
     c.mc("aggregator", "MC_Aggregator", "MC_Aggregator_quick.cfg" if prop == "C14" or th else "MC_Aggregator_quick3.cfg",
          workers=12, timeout=3000,
          vacuity=["InsertCertificate", "MarkCertified", "StoreArtifact", "Restart", "TickSigningLeave"])
+    # the design with the two listed findings repaired (insert + mark atomic, label bound to the key) satisfies every
+    # invariant with NO excuse: whatever else could break them would show here
+    c.mc("aggregator", "MC_Aggregator", "MC_Aggregator_repaired.cfg" if th else "MC_Aggregator_repaired_quick.cfg",
+         name="repaired-design", workers=12, timeout=3000, coverage=False)
     if th:
-        c.mc("aggregator", "MC_Aggregator", "MC_Aggregator_thorough.cfg", workers=14, timeout=3400, heap="24g")
+        c.mc("aggregator", "MC_Aggregator", "MC_Aggregator_thorough.cfg", workers=14, timeout=3400, heap="24g", coverage=False)
     nsim = 1500 if not th else 20000
     g = c.mc("aggregator", "MC_AggregatorGen", "MC_AggregatorGen.cfg", name="SIM+GEN", workers=4, timeout=3000,
              coverage=False, simulate=nsim, depth=70, seed=seed)
